@@ -602,7 +602,7 @@ pub fn synthetic_project(seed: u64) -> Project {
                         11 => "\"line\\nbreak\" | \"tab\\t\" | \"\\u2028sep\" | \"\u{1F600}\" | \"</script>\"".to_string(),
                         12 => "-0 | 1e21 | 0.1 | -1.5e-7 | 123456789012345680000".to_string(),
                         // custom formats (declared in the settings of every synthetic project)
-                        14 => ["StringFormat<\"password\">", "StringFormat<\"Undeclared\">", "NumberFormat<\"age\">", "Sf", "SfChild", "Nf", "NfChild"][rng.below(7)].to_string(),
+                        14 => ["StringFormat<\"password\">", "StringFormat<\"Undeclared\">", "NumberFormat<\"age\">", "Sf", "SfChild", "Nf", "NfChild", "SfChildOfOther", "NfChildOfOther", "SfChildOfOther | SfChild"][rng.below(10)].to_string(),
                         15 => ["Uint8Array", "Float64Array", "BigInt64Array", "Uint8Array | string"][rng.below(4)].to_string(),
                         16 => format!("Record<\"a\" | \"b\", {}>", r(&mut rng)),
                         17 => if use_enum { format!("Record<Color, {}>", r(&mut rng)) } else { format!("Record<number, {}>", r(&mut rng)) },
@@ -722,6 +722,22 @@ pub fn synthetic_project(seed: u64) -> Project {
         extra_decls.push("export type Limits = typeof LIMITS;".into());
         extra_decls.push("export type CalcUser = { c: Calc; first: Calc.M0; lim?: Limits[\"a\"] };".into());
         extra_keys.push(["Calc: Calc", "CalcUser: CalcUser", "Limits: Limits"][rng.below(3)].into());
+    }
+    if rng.chance(1, 6) {
+        // a nullable alias on a recursion cycle, reachable from either end
+        extra_decls.push("export type MaybeNode = LNode | null;\nexport type LNode = { value: number; next: MaybeNode; prev?: MaybeNode };\nexport type LList = { head: MaybeNode; size: number };".into());
+        for k in ["LNode: LNode", "MaybeNode: MaybeNode", "LList: LList"] {
+            if rng.chance(2, 3) {
+                extra_keys.push(k.into());
+            }
+        }
+    }
+    if rng.chance(1, 6) {
+        // two format chains that end in the same format name
+        extra_decls.push("export type TwoChains = { viaParent: SfChild; viaOther: SfChildOfOther; n1?: NfChild; n2?: NfChildOfOther };\nexport type OtherChainOnly = { only: SfChildOfOther; num: NfChildOfOther[] };\nexport type ParentChainOnly = { only: SfChild | null; num?: NfChild };".into());
+        extra_keys.push("TwoChains: TwoChains".into());
+        extra_keys.push("OtherChainOnly: OtherChainOnly".into());
+        extra_keys.push("ParentChainOnly: ParentChainOnly".into());
     }
     if rng.chance(1, 8) {
         extra_decls.push("export type MultiLine = `first line\nsecond line ${string}\n`;\nexport type HasMultiLine = { text: MultiLine; plain: `a\nb` };".into());
@@ -909,9 +925,9 @@ pub fn synthetic_project(seed: u64) -> Project {
             }
         }
         if k == 0 {
-            src.push_str("export type Sf = StringFormat<\"SfParent\">;\nexport type SfChild = StringFormatExtends<Sf, \"SfChild\">;\nexport type Nf = NumberFormat<\"NfParent\">;\nexport type NfChild = NumberFormatExtends<Nf, \"NfChild\">;\n");
+            src.push_str("export type Sf = StringFormat<\"SfParent\">;\nexport type SfChild = StringFormatExtends<Sf, \"SfChild\">;\nexport type Nf = NumberFormat<\"NfParent\">;\nexport type NfChild = NumberFormatExtends<Nf, \"NfChild\">;\nexport type SfOther = StringFormat<\"password\">;\nexport type SfChildOfOther = StringFormatExtends<SfOther, \"SfChild\">;\nexport type NfOther = NumberFormat<\"age\">;\nexport type NfChildOfOther = NumberFormatExtends<NfOther, \"NfChild\">;\n");
         } else {
-            src.push_str("import { Sf, SfChild, Nf, NfChild } from \"./entry\";\n");
+            src.push_str("import { Sf, SfChild, Nf, NfChild, SfChildOfOther, NfChildOfOther } from \"./entry\";\n");
         }
         if k == 0 {
             src.push_str(&enum_decl);
